@@ -80,9 +80,14 @@ def path_obligations(prefix, results, post, instance=None, fn_record=None, expec
             meta.update(function=fn_record["function"], file=fn_record["file"], lines=fn_record["lines"], sha256=fn_record["sha256"])
         covers.append(cover(pname, r.hyps()))
         with within(r.ctx):
-            for (name, extra, goal) in post(r):
-                # hyps are read after post() ran, so definitional constraints it introduced are included
-                obs.append(Obligation("%s/%s" % (pname, name), r.ctx.hyps() + list(extra), goal, dict(meta, goal=name)))
+            try:
+                for (name, extra, goal) in post(r):
+                    # hyps are read after post() ran, so definitional constraints it introduced are included
+                    obs.append(Obligation("%s/%s" % (pname, name), r.ctx.hyps() + list(extra), goal, dict(meta, goal=name)))
+            except core.Unsupported as e:
+                # keep the side obligations generated so far; the path itself stays undecided (engine limit)
+                covers.append(dict(name="%s/engine-limit" % pname, status="engine-error", backend="-", time_s=0.0, model=None,
+                                   meta=dict(meta, error=str(e))))
         for j, (sname, hyps, goal) in enumerate(r.ctx.side):
             obs.append(Obligation("%s/%s#%d" % (pname, sname, j), hyps, goal, dict(meta, kind="side")))
     return obs, covers
